@@ -6,7 +6,7 @@ from harness.props import xmicommon as xc
 
 ID = "C04"
 COQ_TARGETS = ["Lex.vo", "LexProofs.vo", "XmiDoc.vo", "Xmi.vo", "XmiProofs.vo", "ReachProofs.vo", "ReachSpec.vo", "XmiWf.vo", "XmiDocOk.vo",
-               "CorrC04.vo", "XmiExample.vo", "Props/C04.vo"]
+               "CorrC04.vo", "XmiExample.vo", "Props/C04.vo", "JsonDoc.vo", "Json.vo", "JsonProofs.vo", "JsonProofs2.vo", "JsonLoadProofs.vo", "JsonLex.vo", "PropsJson.vo"]
 PROPS_FILE = "Props/C04.v"
 CORR_IMPORTS = "Base Heap Schema Canon XmiDoc Xmi CorrC04"
 OPEN_SCOPES = ["Z_scope"]
@@ -140,7 +140,7 @@ MANIFEST = {
                   "theorems, the premise speaks about the input only; the model is tied to /repo on "
                   "every run: the bytes of to_xmi() are parsed with xml.etree and, inside Coq, checked for closedness, "
                   "denoted and compared with the content observed from the in-memory CAS and with the model writer's document.",
-    "level_note": "XMI half of C04 (the JSON half is added by the JSON builder). Trusted: Coq kernel + vm_compute; models "
+    "level_note": "Both halves: XMI cases in the main suite, JSON cases in the sub-suite C04json (own case type, theorems C04_json_* in the same Props file). Trusted: Coq kernel + vm_compute; models "
                   "Reach.v/Xmi.v/XmiDoc.v/Lex.v/Offsets.v; xml.etree; harness/scen.py observation; float literal contract.",
     "technique": "Coq proof over an executable Gallina model + in-Coq behavioural correspondence and in-Coq independent reader",
     "design_ref": "DESIGN.md section 5, C04; section 4.4",
